@@ -171,7 +171,8 @@ def check(tier):
                        "event": detail, "parse_error": rec.get("parse_error"), "prepare": rec.get("prepare"), "trace_file": rj["trace_file"], "line": rj["line"]}, sig)
     # binding demonstration: plant one scope defect of each kind into recorded statements and expect the rule's name
     selftest(d)
-    cov = {"states": states + tstates, "transitions": transitions + nev, "traces_validated_against_impl": nq,
+    cal = calibrate(d, 600 if tier == "quick" else 4000)
+    cov = {"monitor_calibration_against_sqlite": cal,"states": states + tstates, "transitions": transitions + nev, "traces_validated_against_impl": nq,
            "samples": [{"prql": srcs[0]["src"]}, {"prql": srcs[-1]["src"]}],
            "explanation": f"{len(srcs)} programs (bounded-exhaustive and random programs of the language model with declared and open schemas, repository queries over the chinook schema, book snippets, std functions / operators / casts / literals / set operations / loop x operand shapes, user names shaped like generated ones) x 12 dialects = {tot.get('compiled', 0) + tot.get('err', 0) + tot.get('panic', 0)} compilations; {nq} emitted statements re-parsed with the dialect's parser and their scope walk validated by SqlScopeTrace ({nev} events), {tot.get('prepared', 0)} also prepared by SQLite; compile errors ({tot.get('err', 0)}) are the allowed outcome for inexpressible constructs, panics ({tot.get('panic', 0)}) are C12's",
            "programs": len(srcs), "dialects": 12, "statements_judged": nq, "not_successful": nskip, "events": nev, "outcomes": tot,
@@ -195,6 +196,44 @@ def signature(verdict, dialect, detail, src, rec, prog):
     return {"what": "c07-" + verdict, "verdict": verdict, "dialect": dialect, "detail": detail, "src": src, "sql": rec.get("sql") or "",
             "exec_error": synth.get(verdict, verdict), "parse_error": rec.get("parse_error") or "", "name": name,
             "tags": sorted(tags.tags(prog)) if prog else []}
+
+def calibrate(d, n):
+    """the scope monitor against SQLite: generated statements over t, u (CTE chains, derived tables, joins, stars, set
+    operations), each also with one planted scope defect; the monitor's verdict must be SQLite's for every one"""
+    import sqlgen
+    g = sqlgen.Gen(seed())
+    cases = []
+    for i in range(n):
+        q = g.query()
+        if g.skip:
+            continue
+        cases.append({"name": f"v{i}", "sql": q, "planted": ""})
+        m = g.mutate(q)
+        if m:
+            cases.append({"name": f"m{i}", "sql": m[0], "planted": m[1]})
+    src = os.path.join(d, "cal.sql.ndjson"); write_ndjson(src, cases)
+    sch = os.path.join(d, "cal.schema.json"); json.dump(sqlgen.SCHEMA, open(sch, "w"))
+    out = os.path.join(d, "cal.ast.ndjson")
+    pv(["sqlparse", src, out, "sqlite", sch])
+    base = {"dialect": "sqlite", "outcome": "sql", "nstmt": 1, "world": "closed", "tables": ["t", "u"], "schema": sqlgen.SCHEMA}
+    evs, prep = [], {}
+    for r in read_ndjson(out):
+        prep[r["name"]] = r.get("prepare")
+        evs += sqlwalk.walk(dict(base, id=r["name"], ast=r.get("ast"), parse_error=r.get("parse_error", "")))
+    evs.append(sqlwalk.E("Stop"))
+    tp = os.path.join(d, "cal.walk.ndjson"); write_ndjson(tp, evs)
+    o, ti = tlc("SqlScopeTrace", "SqlScopeTrace.cfg", env={"TRACE": tp}, workers=1, deque=True)
+    tr = tuples(o, "TRACE")
+    if not ti["no_error"] or not tr or tr[0][1] != tr[0][2]:
+        raise ToolError("SqlScopeTrace did not consume the calibration trace")
+    rej = {r[1]: r[3] for r in tuples(o, "REJECT")}
+    stats = {"statements": len(cases), "accepted_by_both": 0, "rejected_by_both": 0}
+    for c in cases:
+        mon, sq = c["name"] in rej, prep[c["name"]] != "ok"
+        if mon != sq:
+            raise ToolError(f"scope monitor and SQLite disagree (monitor: {rej.get(c['name'], 'accept')}, SQLite: {prep[c['name']][:80]}): {c['sql']}")
+        stats["rejected_by_both" if mon else "accepted_by_both"] += 1
+    return stats
 
 def selftest(d):
     base = {"id": "self", "dialect": "sqlite", "outcome": "sql", "parse_error": "", "nstmt": 1, "world": "closed", "tables": ["t", "u"], "schema": TU}
